@@ -16,7 +16,7 @@ import (
 	"github.com/cosmos72/gomacro/go/types"
 )
 
-func c30q(s string) string { return "'" + s }
+func c30q(s string) string { return "'" + strings.ReplaceAll(s, " ", "~") }
 
 // ---------------------------------------------------------------- standard side -> op tokens
 
